@@ -19,6 +19,11 @@ def cases(tier, rng):
                 hdr = 4 + 2 * idw + 2
                 cfg.max_packet = hdr + 1 + 16 + (2 if cfg.crc else 0) + 16 * nreq
                 yield dstprops.LargeFileCase(cfg, [2 ** 32 + 1024, 2 ** 32 + 4096, 2 ** 32 + 8192][:rng.choice([2, 3])])
+    # two sending entities with different packet lengths in the receiver's table
+    for big, small_n in ((200, 1), (200, 2), (120, 3)):
+        cfg = Cfg(mode=0, imm_nak=False, src_idw=2, dst_idw=2, seqw=2, max_seg=2, nak_limit=5, nak_ms=1000, max_packet=big, cktype=3)
+        cfg.dst_alt_remote = {"id": 7, "max_packet": 4 + 4 + 2 + 1 + 8 + 8 * small_n}
+        yield dstprops.TwoSendersCase(cfg)
     for _ in range(400 if tier == "quick" else 30000):
         yield dstprops.c06_case(rng)
 
